@@ -109,8 +109,8 @@ def bucket_vc(drop):
         def st_expr(s, f):
             import ast
 
-            if isinstance(s.value, ast.Yield) and isinstance(s.value.value, ast.Name) and s.value.value.id == "batch" and not d.flushed:
-                lst = f.lookup("batch")
+            if isinstance(s.value, ast.Yield) and isinstance(s.value.value, ast.Name) and not d.flushed and isinstance(f.lookup(s.value.value.id), AbsList):
+                lst = f.lookup(s.value.value.id)  # whatever the local holding the pending list is called
                 h = lst.h
                 d.bad_yield = z3.Or(d.bad_yield, z3.Select(d.pend, h) != SZ(h))
                 d.full = z3.Store(d.full, h, z3.Select(d.full, h) + 1)
@@ -121,10 +121,10 @@ def bucket_vc(drop):
             import ast
 
             for t in s.targets:
-                if isinstance(t, ast.Subscript) and ast.unparse(t.value) == "batches":
+                if isinstance(t, ast.Subscript) and I.eval(t.value, f) is d:  # `del <the dict of pending lists>[h]`, whatever it is called
                     d.delete(I, ip.to_z3(I.eval(t.slice, f)))
                     return
-            return orig_del(s, f)
+            raise Unsupported("del of something other than an entry of the pending-lists dict")
 
         I.st_Expr, I.st_Delete = st_expr, st_delete
         return I.call(I.getattr(obj, "__iter__"), [], {})
